@@ -48,7 +48,3 @@ Theorem trailing_layout_never_changes_the_output optimize (p r g : list N) (k : 
   agree_outcome (COMPILE optimize None (p ++ g)) (COMPILE optimize None p).
 Proof. exact (ShapeEmit.trailing_layout_same_output hl hd hs autovars switches ee fc cli_font cli_maxlen parser_half optimize p r g k). Qed.
 End C.
-Print Assumptions same_tokens_same_output.
-Print Assumptions leading_layout_never_changes_the_output.
-Print Assumptions layout_between_tokens_never_changes_the_output.
-Print Assumptions trailing_layout_never_changes_the_output.
